@@ -85,6 +85,41 @@ pub fn big_hunk_tree() -> (Opts, Tree) {
     (Opts::defaults(), t)
 }
 
+/// 700 directories (20 x 35, each with its own mode and mtime and one small file): more
+/// directories than the open-file limit that `with_fd_limit` sets for the probe.
+pub fn many_dirs_tree() -> (Opts, Tree) {
+    let m = plain_meta();
+    let mut t = Tree::empty_root(Meta { mode: 0o755, ..m });
+    for i in 0..20usize {
+        let top = format!("/t{i:02}");
+        t.0.insert(top.clone(), Node { kind: Kind::Dir, meta: Meta { mode: 0o750, mtime_s: m.mtime_s - 1000 - i as i64, ..m } });
+        for j in 0..35usize {
+            let d = format!("{top}/s{j:02}");
+            t.0.insert(d.clone(), Node { kind: Kind::Dir, meta: Meta { mode: 0o700 + (j as u32 % 8) * 8, mtime_s: m.mtime_s - 5000 - (i * 35 + j) as i64, mtime_ns: 7, ..m } });
+            t.0.insert(format!("{d}/f"), Node { kind: Kind::File { pool: 2 + (j % 6) as u8, len: 10 + (i * 35 + j) as u32 }, meta: m });
+        }
+    }
+    (Opts { hunk: 1000, block: 1 << 16, cap: 1 << 10 }, t)
+}
+
+/// Run `f` with the soft limit on open files lowered to `n` (a stock shell has 1024; this
+/// sandbox 20 000), and put the old limit back afterwards. Cases run one at a time in a
+/// worker, so nothing else in the process is affected.
+pub fn with_fd_limit<T>(n: u64, f: impl FnOnce() -> T) -> T {
+    let mut old = libc::rlimit { rlim_cur: 0, rlim_max: 0 };
+    unsafe { libc::getrlimit(libc::RLIMIT_NOFILE, &mut old) };
+    let low = libc::rlimit { rlim_cur: n.min(old.rlim_max), rlim_max: old.rlim_max };
+    unsafe { libc::setrlimit(libc::RLIMIT_NOFILE, &low) };
+    struct Restore(libc::rlimit);
+    impl Drop for Restore {
+        fn drop(&mut self) {
+            unsafe { libc::setrlimit(libc::RLIMIT_NOFILE, &self.0) };
+        }
+    }
+    let _r = Restore(old);
+    f()
+}
+
 /// Should this worker run the probes? (one worker, not the corpus-replaying one)
 pub fn mine(idx: u32, of: u32) -> bool {
     idx == of / 2
